@@ -2,6 +2,7 @@ SPECIFICATION Spec
 CONSTANTS
   NPos = 9
   NPosOne = 10
+  NPosPerfect = 10
   NPosScored = 7
   ScoreVals = {1, 2, 3}
   MaxOrderVals = {0, 1, 2}
